@@ -133,10 +133,9 @@ class ModelInterp(MiniEval):
                     finally:
                         self.modstack.pop()
                         self._evaluating.discard(key)
-            if q.startswith('builtins.') or '.' in q:
-                ext = _EXTERNAL.get(q)
-                if ext is not None:
-                    return ext
+            ext = _EXTERNAL.get(q)
+            if ext is not None:
+                return ext
         return super().lookup(name, env)
 
     # ------------------------------------------------------------- functions
@@ -705,4 +704,8 @@ class ExitStackM:
                 interp.as_callable(fn)(*args, **kwargs)
 
 
-_EXTERNAL: dict[str, Any] = {'contextlib.ExitStack': Hook(lambda: ExitStackM()), 'contextlib.suppress': Hook(lambda *classes: SuppressM(classes))}
+import keyword as _keyword  # noqa: E402  (pure, total predicates of the standard library: safe to answer for)
+
+_EXTERNAL: dict[str, Any] = {'contextlib.ExitStack': Hook(lambda: ExitStackM()), 'contextlib.suppress': Hook(lambda *classes: SuppressM(classes)),
+                             'keyword': Hook(None, iskeyword=Hook(_keyword.iskeyword), issoftkeyword=Hook(_keyword.issoftkeyword),
+                                             kwlist=list(_keyword.kwlist), softkwlist=list(_keyword.softkwlist))}
